@@ -1,5 +1,7 @@
 package interp
 
+import "path/filepath"
+
 // More of the io surface a refactoring may switch to: byte/string readers as
 // sources of io.Copy / ReadAll / json decoders, os.ReadFile, os.Create,
 // (*os.File).Write/WriteString/Sync/Name.  File-system effects go through the
@@ -77,4 +79,37 @@ func init() {
 	reg("(*os.File).Name", func(i *interpreter, fr *frame, args []value) value {
 		return args[0].(*fileModel).path
 	})
+}
+
+func init() {
+	// (*os.File).ReadDir / Readdirnames on a directory opened with os.Open
+	// (n <= 0: everything; the model lists in name order, the OS in directory
+	// order: callers in sod only build sets from the result)
+	readDir := func(names bool) intrinsicFn {
+		return func(i *interpreter, fr *frame, args []value) value {
+			fm, ok := args[0].(*fileModel)
+			if !ok || fm == nil {
+				return tuple{[]value(nil), i.env.sentinel("os.ErrInvalid", "invalid argument")}
+			}
+			if n := asInt64(args[1]); n > 0 {
+				unsupportedf("(*os.File).ReadDir with a positive count")
+			}
+			f := i.env.fsm()
+			if !fm.node.dir {
+				return tuple{[]value(nil), i.pathErr("readdirent", fm.path, "not a directory", false)}
+			}
+			var out []value
+			for _, name := range f.list(fm.path) {
+				if names {
+					out = append(out, name)
+					continue
+				}
+				c := f.nodes[filepath.Join(fm.path, name)]
+				out = append(out, iface{t: i.env.libPtrType("os", "unixDirent"), v: &statModel{name: name, dir: c.dir}})
+			}
+			return tuple{out, iface{}}
+		}
+	}
+	reg("(*os.File).ReadDir", readDir(false))
+	reg("(*os.File).Readdirnames", readDir(true))
 }
